@@ -33,9 +33,13 @@ fn format_number(
     grouping_separator: Option<Value>,
     decimal_separator: Value,
 ) -> Resolved {
-    let value: Decimal = match value {
-        Value::Integer(v) => v.into(),
-        Value::Float(v) => Decimal::from_f64(*v).expect("not NaN"),
+    let value: String = match value {
+        Value::Integer(v) => Decimal::from(v).to_string(),
+        Value::Float(v) => match Decimal::from_f64(*v) {
+            Some(decimal) => decimal.to_string(),
+            // Infinite or beyond the `Decimal` range: keep the float's own rendering.
+            None => v.to_string(),
+        },
         value => {
             return Err(ValueError::Expected {
                 got: value.kind(),
@@ -55,7 +59,6 @@ fn format_number(
     let decimal_separator = decimal_separator.try_bytes()?;
     // Split integral and fractional part of float.
     let mut parts = value
-        .to_string()
         .split('.')
         .map(ToOwned::to_owned)
         .collect::<Vec<String>>();
